@@ -118,11 +118,13 @@ func identCases() []identCase {
 func identShapes(t reflect.Type) []string {
 	switch {
 	case t.Kind() == reflect.Interface:
-		return []string{"iri", "obj:Object", "obj:Actor"}
+		// after '|': the copy keeps everything (the id too) and differs in that one detail of the link
+		return []string{"iri", "obj:Object", "obj:Actor", "link-full", "link-full|href", "link-full|name", "link-href", "list2", "iris2"}
 	case t == vmodel.IcT:
-		return []string{"l:iri", "l:obj:Object", "l2"}
+		return []string{"l:iri", "l:obj:Object", "l2", "l:link-full|href", "l:link-full|name", "l3|+member", "l3|-member"}
 	case t == vmodel.NlvT:
-		return []string{"nlv1u", "nlv1t"}
+		// "|tag": the same text under another language tag
+		return []string{"nlv1u", "nlv1t", "nlv2|tag", "nlv1t|tag", "nlv2|+entry"}
 	case t == vmodel.TimeT:
 		return []string{"time-s", "time-s|+1ns", "time-s|+300ms", "time-s|-200ms"}
 	case t == vmodel.DurT:
@@ -183,7 +185,42 @@ func buildIdent(ic identCase, idx int) (x, y vocab.Item, desc string) {
 }
 
 func setDifferent(g *vmodel.Gen, fv reflect.Value, t reflect.Type, shape string) {
+	how := ""
+	if i := strings.IndexByte(shape, '|'); i >= 0 {
+		how = shape[i+1:]
+	}
+	changeLink := func(it vocab.Item) vocab.Item {
+		l := *(it.(*vocab.Link))
+		if how == "href" {
+			l.Href = vocab.IRI(string(l.Href) + "/elsewhere")
+		} else {
+			l.Name = vocab.NaturalLanguageValues{{Ref: vocab.NilLangRef, Value: vocab.Content(string(l.Name.First().Value) + " (changed)")}}
+		}
+		return &l
+	}
 	switch {
+	case t == vmodel.NlvT && how == "tag":
+		old := fv.Interface().(vocab.NaturalLanguageValues)
+		n := append(vocab.NaturalLanguageValues{}, old...)
+		n[0] = vocab.LangRefValue{Ref: vocab.NilLangRef, Value: append(vocab.Content{}, old[0].Value...)}
+		fv.Set(reflect.ValueOf(n))
+	case t == vmodel.NlvT && how == "+entry":
+		old := fv.Interface().(vocab.NaturalLanguageValues)
+		n := append(append(vocab.NaturalLanguageValues{}, old...), vocab.LangRefValue{Ref: "tlh", Value: vocab.Content("one more translation")})
+		fv.Set(reflect.ValueOf(n))
+	case t == vmodel.IcT && (how == "href" || how == "name"):
+		old := fv.Interface().(vocab.ItemCollection)
+		n := append(vocab.ItemCollection{}, old...)
+		n[0] = changeLink(n[0])
+		fv.Set(reflect.ValueOf(n))
+	case t == vmodel.IcT && how == "+member":
+		old := fv.Interface().(vocab.ItemCollection)
+		fv.Set(reflect.ValueOf(append(append(vocab.ItemCollection{}, old...), vocab.IRI("https://other.example/one-more"))))
+	case t == vmodel.IcT && how == "-member":
+		old := fv.Interface().(vocab.ItemCollection)
+		fv.Set(reflect.ValueOf(append(vocab.ItemCollection{}, old[:len(old)-1]...)))
+	case t.Kind() == reflect.Interface && (how == "href" || how == "name"):
+		fv.Set(reflect.ValueOf(changeLink(fv.Interface().(vocab.Item))))
 	case t == vmodel.NlvT:
 		old := fv.Interface().(vocab.NaturalLanguageValues)
 		n := append(vocab.NaturalLanguageValues{}, old...)
